@@ -19,7 +19,7 @@ var (
 	c06RespCC = []string{"", "max-age=60", "no-store", "no-store, max-age=60", "public", "must-understand, max-age=60", "private", "private, max-age=60",
 		`max-age=60, x-root="C:\\", no-store`, `x-q="a\", max-age=60", no-store, max-age=60`,
 		"x1, x2, x3, x4, x5, x6, x7, x8, x9, x10, x11, x12, x13, x14, x15, x16, no-store, max-age=60", "max-age=60, x-rep, x-rep=1, x-rep, no-store"}
-	c06Reqs   = []string{"GET", "GET+no-store", "GET+Range", "GET+Range(items)", "GET+Range(Bytes)", "GET+If-None-Match", "GET+If-Modified-Since", "HEAD", "POST", "GET(empty Method)+Range"}
+	c06Reqs = []string{"GET", "GET+no-store", "GET+Range", "GET+Range(items)", "GET+Range(Bytes)", "GET+If-None-Match", "GET+If-Modified-Since", "HEAD", "POST", "GET(empty Method)+Range"}
 )
 
 func c06Statuses(tier string) []int {
@@ -45,14 +45,14 @@ func runC06(x *mc.X) {
 	rcc := mc.Pick(x, "resp.cache-control", c06RespCC)
 	expires := x.Choose("resp.expires", 2) == 1
 	reqKind := mc.Pick(x, "request", c06Reqs)
-	pre := mc.Pick(x, "store-state", []string{"empty", "fresh", "stale", "stale+swr", "dangling-index", "corrupt-entry", "stale-no-validator"})
+	pre := mc.Pick(x, "store-state", []string{"empty", "fresh", "stale", "stale+swr", "dangling-index", "corrupt-entry", "stale-no-validator", "stale+swr, entry cut short"})
 
 	w := world.New(world.Opt{})
 	defer w.Close()
 	oldTok := ""
 	if pre != "empty" {
 		ma := map[string]string{"fresh": "max-age=1000", "stale": "max-age=5", "stale+swr": "max-age=5, stale-while-revalidate=1000",
-			"dangling-index": "max-age=1000", "corrupt-entry": "max-age=1000", "stale-no-validator": "max-age=5"}[pre]
+			"dangling-index": "max-age=1000", "corrupt-entry": "max-age=1000", "stale-no-validator": "max-age=5", "stale+swr, entry cut short": "max-age=5, stale-while-revalidate=1000"}[pre]
 		ph := H("Cache-Control", ma, "ETag", `"old"`)
 		if pre == "stale-no-validator" {
 			ph = H("Cache-Control", ma)
@@ -62,6 +62,13 @@ func runC06(x *mc.X) {
 		logObs(x, "prologue GET (origin: 200 "+ma+")", o0)
 		oldTok = o0.Tok
 		world.Advance(secs(30))
+		if pre == "stale+swr, entry cut short" && len(o0.Ops) > 0 { // the stored entry lost the end of its body (it still parses)
+			for _, k := range w.Conn.Keys() {
+				if v, _ := w.Conn.Peek(k); k != o0.Ops[0].Key && len(v) > 8 {
+					w.Conn.Poke(k, v[:len(v)-5])
+				}
+			}
+		}
 		if (pre == "dangling-index" || pre == "corrupt-entry") && len(o0.Ops) > 0 {
 			idx := o0.Ops[0].Key // the key looked up first is the URL's index; the other key holds the entry
 			for _, k := range w.Conn.Keys() {
@@ -79,12 +86,20 @@ func runC06(x *mc.X) {
 	if expires {
 		h = append(h, [2]string{"Expires", httpDate(w.Epoch.Add(secs(100000)))})
 	}
+	// status 304: either the origin answers 304 whatever it is asked (a broken origin), or only to conditional requests
+	realistic304 := status == 304 && x.Choose("origin-answers-304-only-to-conditional-requests", 2) == 1
 	spec := RS{Status: status, H: h}
 	if status == 304 || status == 204 || status < 200 {
 		// bodiless statuses still get a token in X-Tok
 		spec.Body = []byte{}
 	}
-	answer(w, spec)
+	answerFn(w, func(o *world.Origin, c *world.Call) (*http.Response, error) {
+		sp := spec
+		if status == 304 && c.Header.Get("If-None-Match") == "" && c.Header.Get("If-Modified-Since") == "" && x.Devs() >= 0 && realistic304 {
+			sp.Status, sp.Body = 200, nil // an origin answers 304 only to a conditional request
+		}
+		return o.Respond(c, sp), nil
+	})
 	req := world.Req("GET", U)
 	switch reqKind {
 	case "GET+no-store":
@@ -112,8 +127,10 @@ func runC06(x *mc.X) {
 	tok := ""
 	if len(o1.Calls) > 0 {
 		tok = o1.Calls[0].RespTok
+		status = o1.Calls[0].RespCode // (differs from the chosen one only when the origin answers 304 to conditional requests only)
 	} else if len(o1.BgCalls) > 0 {
 		tok = o1.BgCalls[0].RespTok // the response to the background revalidation
+		status = o1.BgCalls[0].RespCode
 	}
 	world.Advance(secs(1))
 	answer(w, RS{Status: 200, H: H("Cache-Control", "no-store")})
@@ -127,7 +144,7 @@ func runC06(x *mc.X) {
 	switch {
 	case tok == "":
 		why = ""
-	case status == 304 && (pre == "stale" || pre == "stale+swr" || pre == "stale-no-validator") && !ccs.Has("no-store") && reqKind != "GET+no-store":
+	case status == 304 && (pre == "stale" || pre == "stale+swr" || pre == "stale-no-validator" || pre == "stale+swr, entry cut short") && !ccs.Has("no-store") && reqKind != "GET+no-store":
 		why = "" // a 304 answering the cache's own validation request freshens the stored response (C08), it is not stored itself
 	case ccs.Has("no-store") || reqKind == "GET+no-store":
 		why = "no-store"
@@ -159,6 +176,9 @@ func runC06(x *mc.X) {
 			x.Failf(fmt.Sprintf("stored although forbidden (%s) request=%s status=%d store=%s", why, reqKind, status, pre),
 				"response %s (status %d, Cache-Control %q) must not be stored (%s) but written=%v, later served from the store=%v (%s)", tok, status, rcc, why, stored, replayed, o2)
 		}
+	}
+	if realistic304 && (reqKind == "GET" || reqKind == "GET+no-store") && o1.Err == nil && o1.Panic == nil && o1.Status == 304 {
+		x.Failf(fmt.Sprintf("unconditional GET answered 304 (request=%s store=%s)", reqKind, pre), "the client sent no precondition, the origin answers 304 only to conditional requests, yet the client received %s", o1)
 	}
 	if o2.Err == nil && o2.Panic == nil && o2.Status == 304 {
 		x.Failf(fmt.Sprintf("unconditional GET answered 304 (after %s status=%d store=%s)", reqKind, status, pre), "plain GET without conditional headers received %s", o2)
